@@ -213,7 +213,9 @@ func (e *vfDEnd) WriteTo(p []byte, addr net.Addr) (int, error) {
 					for i := range deliveries {
 						deliveries[i].Delay += s.delayBy
 					}
-					act = "send-delayed"
+					if act != "send-delayed-long" { // two delays on one datagram add up: still "long"
+						act = "send-delayed"
+					}
 				case "delay2": // longer than one initial retransmission timeout: arrives after the retransmission
 					for i := range deliveries {
 						deliveries[i].Delay += 5 * s.delayBy
